@@ -4,6 +4,11 @@
 //    (lean/Driver/C20.lean, the expressions regenerated from the headers + the solve_ model) must reproduce.
 //  * numeric part (ops starting with 'f'): float / double instantiations judged against long double references
 //    with bounds c * eps * condition number; prints `ok` or `fail ...` (the model side prints `ok`).
+// The sanitizer build of this template-heavy file is compiled without optimisation (5 s instead of 22 s); the production-build
+// pass (-O3, no sanitizer, no ASL_VERIF) compiles the library's templates exactly as a user would.
+#ifdef __SANITIZE_ADDRESS__
+#pragma GCC optimize ("O0")
+#endif
 #include "common.h"
 #include <stdint.h>
 #include <math.h>
